@@ -30,12 +30,19 @@ where
     m
 }
 
-/// Callee contract for `arrayutils::wrapping_sum::<u32, N>`: the sum modulo 2^32.
-fn contract_wrapping_sum_u32(data: &[u32]) -> u32 {
-    let mut s = 0u32;
+/// Callee contract for `arrayutils::wrapping_sum::<T, N>`: the sum modulo 2^bits.
+fn contract_wrapping_sum<T, const N: usize>(data: &[T]) -> T
+where
+    T: crate::fakesimd::SimdElement + num_traits::WrappingAdd + num_traits::Zero,
+    crate::fakesimd::Simd<T, N>: crate::fakesimd::SimdUint<Scalar = T>
+        + std::ops::Add<Output = crate::fakesimd::Simd<T, N>>,
+    crate::repeat::Count<N>: crate::repeat::Repeat,
+    crate::fakesimd::LaneCount<N>: crate::fakesimd::SupportedLaneCount,
+{
+    let mut s = T::zero();
     let mut i = 0;
     while i < data.len() {
-        s = s.wrapping_add(data[i]);
+        s = s.wrapping_add(&data[i]);
         i += 1;
     }
     s
@@ -195,31 +202,32 @@ fn c16_subframe_header_no_panic() {
     kani::cover!(!ok && n == 2 && off == 0);
 }
 
-/// `quantized_parameters(order)` for every LPC order 1..=32 a subframe type tag can denote, on
-/// arbitrary bytes: never a panic.  (A precision code of 0b1111 and a negative shift are invalid
-/// per RFC 9639: errors.)  One order per loop iteration keeps every Vec length concrete.
-//@ unit props=C16 tier=quick kind=bounded timeout=600 funcs="parser::quantized_parameters; parser::raw_samples" bound="orders 1..=4 and 32, 6 arbitrary input bytes, bit offset 0..=7" finding=F-C16-parser-panics
-#[kani::proof]
-#[kani::unwind(35)]
-#[kani::stub(std::fmt::format, stub_format)]
-fn c16_quantized_parameters_no_panic() {
-    let orders = [1usize, 2, 3, 4, 32];
-    let mut k = 0;
-    while k < orders.len() {
-        let order = orders[k];
-        let data: [u8; 6] = kani::any();
-        let off: usize = kani::any();
-        kani::assume(off <= 7);
-        let r = quantized_parameters::<BitErr>(order)((&data[..], off));
-        if let Ok((_rest, qp)) = r {
-            assert!(qp.order() == order);
-            assert!(qp.order() <= crate::constant::qlpc::MAX_ORDER);
-            assert!(1 <= qp.precision() && qp.precision() <= 15);
-            assert!(qp.shift() >= 0);
-            kani::cover!(order == 4);
-        }
-        k += 1;
+/// `quantized_parameters(order)` on N arbitrary bytes at every bit offset: never a panic.  (A
+/// precision code of 0b1111, a negative shift and an order above 24 are invalid: errors.)  The
+/// order is concrete per harness so that every Vec length is concrete.
+fn c16_qp_body<const ORDER: usize, const N: usize>() {
+    let data: [u8; N] = kani::any();
+    let off: usize = kani::any();
+    kani::assume(off <= 7);
+    let r = quantized_parameters::<BitErr>(ORDER)((&data[..], off));
+    let mut ok = false;
+    if let Ok((_rest, qp)) = r {
+        ok = true;
+        assert!(qp.order() == ORDER);
+        assert!(qp.order() <= crate::constant::qlpc::MAX_ORDER);
+        assert!(1 <= qp.precision() && qp.precision() <= 15);
+        assert!(qp.shift() >= 0);
     }
+    kani::cover!(ok || ORDER > 24);
+    kani::cover!(!ok);
+}
+
+//@ unit props=C16 tier=quick kind=bounded timeout=600 funcs="parser::quantized_parameters; parser::raw_samples" bound="order 1, 4 arbitrary input bytes (9 + 16 bits needed at most), bit offset 0..=7" finding=F-C16-parser-panics
+#[kani::proof]
+#[kani::unwind(8)]
+#[kani::stub(std::fmt::format, stub_format)]
+fn c16_quantized_parameters_order1() {
+    c16_qp_body::<1, 4>();
 }
 
 /// `constant(block_size, bits)` for every documented sample width 8..=25 on 5 arbitrary bytes at
@@ -265,4 +273,48 @@ fn c16_verbatim_no_panic() {
     }
     kani::cover!(ok && bits == 25);
     kani::cover!(!ok);
+}
+
+//@ unit props=C16 tier=thorough kind=bounded timeout=900 funcs="parser::quantized_parameters; parser::raw_samples" bound="order 2, 6 arbitrary input bytes, bit offset 0..=7" finding=F-C16-parser-panics
+#[kani::proof]
+#[kani::unwind(9)]
+#[kani::stub(std::fmt::format, stub_format)]
+fn c16_quantized_parameters_order2() {
+    c16_qp_body::<2, 6>();
+}
+
+/// Order 25 (subframe type 0b111000) exceeds the maximum LPC order of this crate (24; RFC 9639
+/// allows 32): must be an error, not an abort.
+//@ unit props=C16 tier=quick kind=bounded timeout=900 funcs="parser::quantized_parameters; parser::raw_samples" bound="order 25, 6 arbitrary input bytes (only 1-bit precision fits), bit offset 0..=7" finding=F-C16-parser-panics
+#[kani::proof]
+#[kani::unwind(28)]
+#[kani::stub(std::fmt::format, stub_format)]
+fn c16_quantized_parameters_order25() {
+    c16_qp_body::<25, 6>();
+}
+
+/// `residual(BS, WARM)` on N arbitrary bytes: never a panic, whatever partition order, coding
+/// method and Rice parameters the bytes denote.
+fn c16_residual_body<const BS: usize, const WARM: usize, const N: usize>() {
+    let data: [u8; N] = kani::any();
+    let off: usize = kani::any();
+    kani::assume(off <= 7);
+    let r = residual::<BitErr>(BS, WARM)((&data[..], off));
+    let mut ok = false;
+    if let Ok((_rest, res)) = r {
+        ok = true;
+        assert!(res.block_size() == BS && res.warmup_length() == WARM);
+        assert!(res.partition_order() <= 15);
+    }
+    kani::cover!(ok);
+    kani::cover!(!ok);
+}
+
+//@ unit props=C16 tier=quick kind=bounded timeout=900 funcs="parser::residual; parser::unary_code" stubs="arrayutils::find_max -> contract_find_max (maximum element); arrayutils::wrapping_sum -> contract_wrapping_sum_u32 (sum mod 2^32)" bound="block size 2, warm-up 1, 3 arbitrary input bytes, bit offset 0..=7"
+#[kani::proof]
+#[kani::unwind(27)]
+#[kani::stub(crate::arrayutils::find_max, contract_find_max)]
+#[kani::stub(crate::arrayutils::wrapping_sum, contract_wrapping_sum)]
+fn c16_residual_bs2_no_panic() {
+    c16_residual_body::<2, 1, 3>();
 }
